@@ -371,7 +371,8 @@ def coq_case(c, o):
     for s in o.get("slots", []):
         cells = "[" + "; ".join("[" + "; ".join(_fl(x) for x in row) + "]" for row in s["cells"]) + "]"
         load = "[" + "; ".join(_fl(x) for x in s.get("load", [])) + "]"
-        slots.append("(mkos %d%%Z %d%%Z %s %s (%d)%%Z)" % (s["jar"], s["maxd"], cells, load, s.get("jtag", 0)))
+        opt = "[" + "; ".join("[" + "; ".join(_fl(x) for x in row) + "]" for row in s.get("opt", [])) + "]"
+        slots.append("(mkos %d%%Z %d%%Z %s %s (%d)%%Z %s)" % (s["jar"], s["maxd"], cells, load, s.get("jtag", 0), opt))
     text = "None" if c["missing"] else 'Some "%s"%%string' % esc(c["text"])
     return "(mktc %d%%Z %d%%Z %s %d%%Z %d%%Z (%s) %d%%Z [%s])" % (
         c["layout"], c["nh"], hexf(float(c["none"])), c["year"], c["nslots"], text, CLASS[o["class"]], ";\n   ".join(slots))
